@@ -16,7 +16,10 @@ Proof.
   intros M W. unfold interp_with_lib. destruct (str_eqb w "w_len").
   - destruct (from_meta string_fm it) as [v|y|m] eqn:R; cbn [map_ok]; try discriminate. intros [= <-].
     apply oks_okw. now apply (proj1 string_inside).
-  - destruct (str_eqb w "w_fail"); [|discriminate]. intros [= <-]. apply unsp_okw, unsp_custom.
+  - destruct (str_eqb w "w_opt_len").
+    + destruct (from_meta string_fm it) as [v|y|m] eqn:R; cbn [map_ok]; try discriminate. intros [= <-].
+      apply oks_okw. now apply (proj1 string_inside).
+    + destruct (str_eqb w "w_fail"); [|discriminate]. intros [= <-]. apply unsp_okw, unsp_custom.
 Qed.
 
 Lemma lib_fn_unsp consts g v e : interp_fn_lib consts g v = Err e -> unsp e.
